@@ -37,10 +37,12 @@ def main():
         C, D_ = rng.uniform(20, 120), rng.uniform(0.5, 15)
         qimin = rng.uniform(0.2, 1.5)
         qlast = qimin + rng.uniform(0.5, 6)
+        if rng.random() < 0.06:      # the minimum-friction flow at (or beyond) the largest tabulated flow
+            qlast = rng.choice([qimin, qimin * rng.uniform(0.7, 1.0)])
         jump_at = rng.uniform(qimin, qlast)
         # a pump / driver table of finite range: evaluations outside it raise IndexError, as interpDict does
         limited_range = rng.random() < 0.45
-        q_hi_tab = qlast * rng.uniform(1.0, 1.6)
+        q_hi_tab = max(qlast, qimin) * rng.uniform(1.0, 1.6)      # the feasibility test at qimin and the test at qlast stay inside the table
         kink = rng.uniform(5, 80)
 
         def sys_head(q):
@@ -103,7 +105,7 @@ def main():
             o = py_outcome(pl.find_operating_point, [0.1, qlast])
         finally:
             so.root_scalar = orig_rs
-        hs0, hp0 = sys_head(qimin), pump_head(qimin) if not limited_range or 0 <= qimin <= q_hi_tab else (0.0, 0.0)
+        hs0, hp0 = sys_head(qimin), pump_head(qimin)
         sec = [e for e in events if e[0] == 'secant']
         ql = [e for e in events if e[0] == 'qlast']
         table = [(q, g) for (_, q, g, _, _) in sec + ql if g is not None]
